@@ -14,14 +14,22 @@ namespace C10
 
 /-- **The flag word reaches the kernel unmodified** (and so do operation and program): the one seccomp
     call `LoadFilter` makes is `seccomp(SECCOMP_SET_MODE_FILTER, filter.Flag, &prog)`. -/
-theorem flags_unmodified (U : Unsupported) (filter : Filter) (p : Prog) (hp : filter.policy = .prog p) (w : World) :
+theorem flags_unmodified (U : Unsupported) (filter : Filter) (p : Prog) (hp : filter.policy = .prog p) (w : World)
+    (hnf : ¬ nnpFault filter w) :
     ∃ rest, (Gen.loadFilter U filter w).2.log =
       .seccomp (C09.callThread filter w) SECCOMP_SET_MODE_FILTER filter.flag (mkFprog (.prog p)) :: rest := by
-  obtain ⟨msg, _, heq⟩ := gen_loadFilter_prog U filter p hp w
+  obtain ⟨msg, _, heq⟩ := gen_loadFilter_prog U filter p hp w hnf
   rw [heq]
   simp only
   rw [atReturn_log, (gen_seccomp_log U _ _ _).1]
   exact ⟨_, rfl⟩
+
+/-- … and in the one case excluded above (no_new_privs requested, `prctl` refuses it) no seccomp call is
+    made at all: the log grows by the `prctl` only (`C09.nnp_refusal_is_error`). -/
+theorem no_seccomp_call_on_nnp_fault (U : Unsupported) (filter : Filter) (p : Prog) (hp : filter.policy = .prog p)
+    (w : World) (hf : nnpFault filter w) :
+    (Gen.loadFilter U filter w).2.log = .prctl w.cur 38 1 0 0 0 :: w.log :=
+  (C09.nnp_refusal_is_error U filter p hp w hf.1 hf.2).2.2.1
 
 /-- the bit the wrapper tests for a refused thread-sync is the UAPI's TSYNC bit -/
 theorem flag_constants : FLAG_TSYNC = 1 ∧ FLAG_LOG = 2 := ⟨rfl, rfl⟩
@@ -174,8 +182,13 @@ theorem tsync_covers_all_threads (U : Unsupported) (filter : Filter) (w w' : Wor
     ∃ p, filter.policy = .prog p ∧ Covered p.id (later.foldl (fun w s => s.apply w) w') := by
   obtain ⟨p, hp, hcov⟩ := tsync_covers_existing U filter w w' hc h hts
   refine ⟨p, hp, ?_⟩
+  have hnf : ¬ nnpFault filter w := by
+    intro hf
+    rw [gen_loadFilter_fault U filter p hp w hf] at h
+    simp only [Prod.mk.injEq] at h
+    exact absurd h.1 (by simp)
   have hwf' : WF w' := by
-    obtain ⟨msg, _, heq⟩ := gen_loadFilter_prog U filter p hp w
+    obtain ⟨msg, _, heq⟩ := gen_loadFilter_prog U filter p hp w hnf
     rw [heq] at h
     simp only [Prod.mk.injEq] at h
     rw [← h.2]
@@ -204,14 +217,18 @@ theorem no_tsync_touches_caller_only (U : Unsupported) (filter : Filter) (w : Wo
   | assembleFails => rw [(gen_loadFilter_noprog U filter (by simp [hpol]) w).2]
   | encodeFails => rw [(gen_loadFilter_noprog U filter (by simp [hpol]) w).2]
   | prog p =>
-    obtain ⟨msg, _, heq⟩ := gen_loadFilter_prog U filter p hpol w
+    have hpre : (preInstall filter w).thr t = w.thr t := by
+      rcases preInstall_cases filter w with h | h | h <;> rw [h]
+      · rfl
+      · rw [World.upd_thr_ne _ _ _ _ ht']; rfl
+    by_cases hf : nnpFault filter w
+    · rw [gen_loadFilter_fault U filter p hpol w hf]
+      simp only
+      rw [atReturn_thr]; exact hpre
+    obtain ⟨msg, _, heq⟩ := gen_loadFilter_prog U filter p hpol w hf
     rw [heq]
     simp only
     rw [atReturn_thr, gen_seccomp_world]
-    have hpre : (preInstall filter w).thr t = w.thr t := by
-      cases hn : filter.noNewPrivs
-      · rw [preInstall_off _ _ hn]
-      · rw [preInstall_nnp _ _ hn, World.upd_thr_ne _ _ _ _ ht']; rfl
     have hk := sysSeccomp_filter filter.flag (mkFprog (.prog p)) (preInstall filter w)
     generalize sysSeccomp 1 filter.flag (mkFprog (.prog p)) (preInstall filter w) = r at hk
     unfold C09.callThread at ht
